@@ -1453,6 +1453,7 @@ def connect(m, *args, **kwargs):
     flattens = {handle: iter(sorted(signature.members.flatten()))
                 for handle, signature in signatures.items()}
     connections = []
+    sig_dimensions = {}
     any_in, any_out = False, False
     # Each iteration of the outer loop is intended to connect several (usually a pair) members
     # to each other, e.g. an out member `[0].a` to an in member `[1].a`. However, because we
@@ -1527,7 +1528,18 @@ def connect(m, *args, **kwargs):
                 f"Cannot connect signature member(s) {sig_member_paths_as_string} with "
                 f"port member(s) {port_member_paths_as_string}")
         if sig_kind:
-            # There are no port members at this point; we're done with this path.
+            # There are no port members at this point; we're done with this path. The dimensions
+            # of the signature members are needed to reach the members below them.
+            (first_sig_path, first_sig_member), *rest_of_sig_kind = sig_kind
+            for (sig_path, sig_member) in rest_of_sig_kind:
+                if first_sig_member.dimensions != sig_member.dimensions:
+                    raise ConnectionError(
+                        f"Cannot connect the member {_format_path(first_sig_path)} with dimensions "
+                        f"{first_sig_member.dimensions!r} to the member {_format_path(sig_path)} "
+                        f"with dimensions {sig_member.dimensions!r} because the dimensions do not "
+                        f"match")
+            for (sig_path, sig_member) in sig_kind:
+                sig_dimensions[sig_path] = sig_member.dimensions
             continue
         # There are only port members after this point.
         any_in = any_in or bool(in_kind)
@@ -1641,9 +1653,22 @@ def connect(m, *args, **kwargs):
                     connect_dimensions(rest_of_dimensions,
                         out_path=(*out_path, index), in_path=(*in_path, index),
                         src_loc_at=src_loc_at + 1)
+            def index_paths(path):
+                # Members of a signature member with dimensions are reached through an index for
+                # each of the dimensions, inserted after the name of that signature member.
+                paths = [()]
+                for length, item in enumerate(path, start=1):
+                    paths = [(*indexed_path, item) for indexed_path in paths]
+                    for dimension in sig_dimensions.get(path[:length], ()):
+                        paths = [(*indexed_path, index)
+                                 for indexed_path in paths for index in range(dimension)]
+                return paths
             assert out_member.dimensions == in_member.dimensions
-            connect_dimensions(out_member.dimensions,
-                out_path=out_path, in_path=in_path, src_loc_at=src_loc_at + 1)
+            for indexed_out_path, indexed_in_path in zip(index_paths(out_path),
+                                                         index_paths(in_path)):
+                connect_dimensions(out_member.dimensions,
+                    out_path=indexed_out_path, in_path=indexed_in_path,
+                    src_loc_at=src_loc_at + 1)
 
     # If no connections were made, and there were inputs but no outputs in the
     # signatures, issue a diagnostic as this is most likely in error.
